@@ -45,7 +45,7 @@ CLAIMED = {
          "arbitrary X1 (before/between/equal/after), both fast matmul branches, evaluate symmetric, diagonal = evaluate x x. The model is tied to "
          "kernels/quasisep.py by exact correspondence on a synthetic structured-coordinate integer kernel over every weak ordering of the merged "
          "points and by tolerance correspondence on 13 built-in kernels/expressions with tables from the implementation's own methods.",
-    note="Trusted: Coq kernel, model Model/SSKernel.v + Model/General.v, harness, JAX. The laws themselves are C18's subject. Rounding outside the theorems.",
+    note="Trusted: Coq kernel, model Model/SSKernel.v + Model/General.v, harness, JAX, and for the end-to-end theorems the translator (tables regenerated on every run) and the standard library's real-number axioms + classical epsilon (Base/RStruct.v). The laws are proved preserved by scale / sum / product / wrapper (laws_closed) and established for the source-generated tables of Exp, Matern-3/2, -5/2, Cosine, Celerite (W1/W2 join); SHO and CARMA laws remain in C18's list form. Rounding outside the theorems.",
     technique="Coq proof (chain of transition products by induction, prefix-count lemma for searchsorted) + exact/tolerance correspondence",
     ref="DESIGN.md section 6, C08"),
  "C11": dict(
@@ -100,7 +100,7 @@ CLAIMED = {
     text="Machine-checked: any two lower-triangular factors of the same matrix give the same whitened quadratic form and the same squared diagonal product, so the value reported does not depend on the "
          "factorisation algorithm. Pairwise comparison of the implementation's dense / quasiseparable / Kalman solvers (log probability, normalisation, covariance, variance, samples for a key, triangular product/solve) "
          "and correspondence of the Kalman recursion's Gallina model with the implementation and with the Cholesky diagonal (s_k = c_k^2).",
-    note="Trusted: as C01. kalman_is_cholesky is checked at model level by correspondence, not proved; uniqueness of the lower-triangular factor with positive diagonal (solver-independent samples / dot_triangular) is a theorem (chol_unique); the conditional process is compared solver against solver in 8 conditioning modes.",
+    note="Trusted: as C01. the Kalman recursion is proved to be the LDU elimination of the covariance of its state-space model for arbitrary tables (innovation variances = pivots, sum v^2/s = y^T S^-1 y, prod s = det S), and that covariance is shown equal to to_symm_qsm + noise for time-invariant models (constant observation vector, commuting transitions, symmetric Pinf), on abstract generators; uniqueness of the lower-triangular factor with positive diagonal (solver-independent samples / dot_triangular) is a theorem (chol_unique); the conditional process is compared solver against solver in 8 conditioning modes.",
     technique="Coq proof (factor-independence of the Gaussian quantities) + correspondence of the Kalman model",
     ref="DESIGN.md section 6, C03"),
  "C12": dict(
@@ -128,7 +128,7 @@ CLAIMED = {
  "C17": dict(
     text="Machine-checked (any real-closed field, every vector length): the sortedness check raises iff the coordinates are not non-decreasing; sorted inputs with ties are accepted, a single inversion at "
          "any position is rejected, assume_sorted bypasses the check; decision tables for X_test validation, rank checks and the quasiseparable operator family checks. Exact correspondence of the predicate on "
-         "every inversion position for lengths <= 5/6 (incl. 1e-9 inversions), eager ValueError, error at execution under jit and vmap, structured coordinates, and a 22-row table of the other documented ValueErrors.",
+         "every inversion position for lengths <= 5/6 (incl. 1e-9 inversions), eager ValueError, error at execution under jit and vmap, structured coordinates, and a 28-row table of the other documented ValueErrors (incl. partial leaf mismatches of a structured X_test).",
     note="PARTIAL: delivery of the host callback's exception under jit/vmap is JAX runtime behaviour (observed, not proved).",
     technique="Coq proof (sorted <-> no adjacent inversion) + exact correspondence + exception table",
     ref="DESIGN.md section 6, C17"),
